@@ -128,6 +128,7 @@ def run(ctx):
         final.append((lang.bytes_program(rng), [], 0))
         final.append((lang.scoping_shadowed(rng), [], 0))
         final.append((lang.charclass_program(rng), [], 0))
+        final.append((lang.array_ops_program(rng), [], 0))
     nofloat = len(final)
     for _ in range(2 if quick else 10):
         final.append((lang.float_program(rng), [], 0))
